@@ -253,7 +253,11 @@ pub fn write_integer(integer: u32, s: &mut dyn Write) -> RdpResult<()> {
 pub fn read_integer_16(minimum: u16, s: &mut dyn Read) -> RdpResult<u16> {
     let mut result = U16::BE(0);
     result.read(s)?;
-    Ok(result.inner() + minimum)
+    let value = result.inner() as u32 + minimum as u32;
+    if value > 0xFFFF {
+        return Err(Error::RdpError(RdpError::new(RdpErrorKind::InvalidData, "PER integer 16 out of range")))
+    }
+    Ok(value as u16)
 }
 
 /// This is a convenient method for PER encoding
